@@ -1,7 +1,8 @@
 /-
   Text codings (`datacoding/*.go`): texts are lists of Unicode scalar values; a coding maps a text
   to octets (or septets) or refuses it.  ASCII and UTF-16BE ("UCS-2") are modelled here; GSM 7-bit
-  is `Model/Gsm7.lean`; Windows-1252 and GB18030 live in golang.org/x/text and are not modelled.
+  is `Model/Gsm7.lean`; Windows-1252 (`datacoding.Latin1`) is the table of the WHATWG / Microsoft code page;
+  GB18030 lives in golang.org/x/text and is not modelled.
 -/
 import SmsVerif.Model.Gsm7
 
@@ -61,6 +62,30 @@ def utf16 : Coding where
       else if 0xDC00 ≤ w ∧ w < 0xE000 then none
       else some (w, rest)
     | _ => none
+
+/-! ### Windows-1252 (`datacoding.Latin1` uses `charmap.Windows1252`) -/
+
+/-- code points of octets 0x80..0x9F (Microsoft code page 1252 as golang.org/x/text carries it: the
+    five octets 81, 8D, 8F, 90, 9D are undefined — they decode to U+FFFD and nothing encodes to them) -/
+def win1252Hi : List Nat :=
+  [0x20AC, 0xFFFD, 0x201A, 0x0192, 0x201E, 0x2026, 0x2020, 0x2021, 0x02C6, 0x2030, 0x0160, 0x2039, 0x0152, 0xFFFD, 0x017D, 0xFFFD,
+   0xFFFD, 0x2018, 0x2019, 0x201C, 0x201D, 0x2022, 0x2013, 0x2014, 0x02DC, 0x2122, 0x0161, 0x203A, 0x0153, 0xFFFD, 0x017E, 0x0178]
+
+/-- position of `s` in `t`, counted from `i` -/
+def lookupFrom : List Nat → Nat → Nat → Option Nat
+  | [], _, _ => none
+  | x :: xs, s, i => if x = s then some i else lookupFrom xs s (i + 1)
+
+def win1252Dec (b : Nat) : Nat := if b < 0x80 ∨ 0xA0 ≤ b then b else win1252Hi.getD (b - 0x80) 0xFFFD
+
+def win1252 : Coding where
+  code s :=
+    if s < 0x80 ∨ (0xA0 ≤ s ∧ s < 0x100) then some [s]
+    else if s = 0xFFFD then none
+    else (lookupFrom win1252Hi s 0).map fun i => [0x80 + i]
+  step
+    | [] => none
+    | b :: rest => if b < 256 then some (win1252Dec b, rest) else none
 
 /-! ### selection tables (hand-written; tied to the code by exhaustive correspondence over 0..255) -/
 
